@@ -192,7 +192,12 @@ class C15(Machine):
                     if k == "normalize":
                         if d.get("dtype") == "int64":
                             continue      # refused for integer arrays
-                        sur.normalize_original_data()
+                        out = C.call(sur.normalize_original_data)
+                        if isinstance(out, C.Raised):
+                            self._bad("normalize-raises", f"step {step}: "
+                                      f"normalize_original_data() raised "
+                                      f"{out!r} on non-constant series")
+                            break
                         # zero mean, unit variance per series, evaluated in
                         # the precision of the caller's array
                         Xd = X.astype(d.get("dtype", "float64"))
